@@ -26,6 +26,11 @@ def gen_case(rng, kind=None, rules=False):
     safe = (not ma_only) or rng.random() < 0.3
     # a delayed REACTANT can drive a count negative; with the plain interface a negative mass-action propensity then makes
     # sample_discrete return -1 (out-of-bounds read): such networks are run in safe mode (see DESIGN.md, observations)
+    if not ma_only:
+        # a delayed reactant can make a count negative after the delay; a Hill law with fractional exponent then
+        # evaluates (negative)**n (complex, raises inside the simulator): delayed reactants only with mass action
+        for rx in spec["reactions"]:
+            if "delay" in rx: rx["delay"]["reactants"] = []
     if any(rx.get("delay", {}).get("reactants") for rx in spec["reactions"]): safe = True
     n = rng.randint(3, 12); dt = rng.choice([0.25, 0.5, 1.0, 2.0])
     case = {"spec": spec, "kind": kind, "safe": safe, "times": [i * dt for i in range(n)], "seed": rng.randint(1, 2**31)}
@@ -44,19 +49,17 @@ def _net(rx, s):
     d = rx.get("delay", {"reactants": [], "products": []})
     return (rx["products"].count(s) - rx["reactants"].count(s), d["products"].count(s) - d["reactants"].count(s))
 
-def _decompose(diff, cols, bound=40):
-    """is diff a non-negative integer combination of cols? small exhaustive search with pruning"""
-    n = len(cols)
-    def rec(i, rem):
-        if all(v == 0 for v in rem): return True
-        if i == n: return False
-        col = cols[i]
-        if all(c == 0 for c in col): return rec(i + 1, rem)
-        for m in range(bound + 1):
-            new = [r - m * c for r, c in zip(rem, col)]
-            if rec(i + 1, new): return True
-        return False
-    return rec(0, list(diff))
+def _decompose(diff, cols, bound=400):
+    """is diff a non-negative integer combination of cols?  integer feasibility by scipy's MILP (HiGHS)"""
+    import numpy as np
+    from scipy.optimize import milp, LinearConstraint, Bounds
+    cols = [c for c in cols if any(c)]
+    if not any(diff): return True
+    if not cols: return False
+    Amat = np.array(cols, dtype=float).T           # species x reactions
+    res = milp(c=np.ones(len(cols)), constraints=LinearConstraint(Amat, np.array(diff, dtype=float), np.array(diff, dtype=float)),
+               integrality=np.ones(len(cols)), bounds=Bounds(0, bound))
+    return bool(res.success)
 
 def oracle(case, r):
     if not r or "rows" not in r: return "implementation failed: %s" % json.dumps(r)[:300]
